@@ -79,7 +79,7 @@ def run(ctx):
         rej = pipeline.self_check_exprs(ctx, [c for c in cases if c["kind"] == "expr"])
         rej.update(pipeline.self_check_progs(ctx, [c for c in cases if c["kind"] in ("prog", "coll", "obj")]))
         rej.update(pipeline.self_check_data(ctx, [c for c in cases if c["kind"] == "data"]))
-        pipeline.self_check_ctl(ctx, [c for c in cases if c["kind"] == "ctl"])
+        rej.update(pipeline.self_check_ctl(ctx, [c for c in cases if c["kind"] == "ctl"]))
     cases = [c for c in cases if c["id"] not in rej]
     ev = pipeline.evaluate(ctx, cases)
     stats = {}
